@@ -26,7 +26,7 @@ Proof. exact same_parse_modulo_parens. Qed.
    its tokens changed - a separator may grow, shrink, change its bytes, or appear where there was none; an existing one is
    never removed entirely; a word ending in a dangling escape is excluded (known finding K14); what follows a lexical error is
    unchanged. Then the token streams are equal, hence Parse gives the same tree or fails on both.
-   Oracle fact: the four whitespace runes are not letters or digits. Non-ASCII input: decided per case by C09_check. *)
+   Oracle fact: the four whitespace runes are not letters or digits. (First development; the general statement for all byte strings follows below.) *)
 Theorem C09_whitespace_same_tokens : forall cl : Lex.classes, (forall r, Lex.is_space r = true -> Lex.is_alnum cl r = false) ->
   forall s s' : Lex.bytes, LexWs.wsvar cl s s' -> LexWs.asc s -> LexWs.asc s' -> Lex.lex cl s' = Lex.lex cl s.
 Proof. exact LexWs.lex_ws. Qed.
